@@ -75,6 +75,7 @@ def run(tier, seed):
     W = workdir('C05')
     native_build(['bin/uscxml-transform', 'lib/libuscxml.so'])
     docs = [c for _, c in stepcheck.documents(tier, seed + 5, n_random=30 if tier == 'quick' else 400, n_corpus=10 if tier == 'quick' else 90)]
+    docs = chartgen.structural_charts() + docs
     docs = [c for c in docs if not stepcheck.excluded_by_finding(c, ('C05', 'C02'))]
     def job(c):
         try:
